@@ -21,19 +21,21 @@ CMPOPS = [(ast.Eq, '=='), (ast.NotEq, '!='), (ast.Lt, '<'), (ast.LtE, '<='), (as
 
 def const_wire(v):
     if v is True:
-        return [Atom('Const'), Atom('True'), 'True']
+        return [Atom('Const'), Atom('TRUE'), 'True']
     if v is False:
-        return [Atom('Const'), Atom('False'), 'False']
+        return [Atom('Const'), Atom('FALSE'), 'False']
     if v is None:
-        return [Atom('Const'), Atom('None'), 'None']
+        return [Atom('Const'), Atom('NONE'), 'None']
     if v is Ellipsis:
-        return [Atom('Const'), Atom('Ellipsis'), 'Ellipsis']
-    kind = {int: 'int', float: 'float', complex: 'complex', str: 'str', bytes: 'bytes'}.get(type(v))
+        return [Atom('Const'), Atom('ELLIPSIS'), 'Ellipsis']
+    kind = {int: 'INT', float: 'FLOAT', complex: 'COMPLEX', str: 'STR', bytes: 'BYTES'}.get(type(v))
     if kind is None:
-        return [Atom('Unsupported'), 'Constant:' + type(v).__name__]
+        return [Atom('Unmodelled'), 'Constant:' + type(v).__name__]
     r = repr(v)
     if any(0xd800 <= ord(c) <= 0xdfff for c in r):
-        return [Atom('Unsupported'), 'Constant:surrogate']
+        return [Atom('Unmodelled'), 'Constant:surrogate']
+    if kind == 'COMPLEX' and r.startswith('('):
+        return [Atom('Unmodelled'), 'Constant:complex with a real part']      # not a literal
     return [Atom('Const'), Atom(kind), r]
 
 
@@ -41,15 +43,21 @@ def opt(x):
     return N if x is None else to_wire(x)
 
 
-def arg_wire(a):
-    return [Atom('arg'), a.arg, opt(a.annotation)]
+def param_wire(a, default=None):
+    return [Atom('param'), a.arg, opt(a.annotation), opt(default)]
 
 
 def args_wire(a):
-    return [Atom('Args'), [arg_wire(x) for x in getattr(a, 'posonlyargs', [])], [arg_wire(x) for x in a.args],
-            N if a.vararg is None else arg_wire(a.vararg), [arg_wire(x) for x in a.kwonlyargs],
-            [opt(x) for x in a.kw_defaults], N if a.kwarg is None else arg_wire(a.kwarg),
-            [to_wire(x) for x in a.defaults]]
+    """`arguments` with every default attached to its parameter (write_args pairs them by index)"""
+    pos = list(getattr(a, 'posonlyargs', [])) + list(a.args)
+    npo = len(getattr(a, 'posonlyargs', []))
+    nd = len(pos) - len(a.defaults)
+    if nd < 0 or len(a.kw_defaults) != len(a.kwonlyargs):
+        return [Atom('Unmodelled'), 'arguments']
+    ps = [param_wire(x, a.defaults[i - nd] if i >= nd else None) for i, x in enumerate(pos)]
+    return [Atom('Args'), ps[:npo], ps[npo:], N if a.vararg is None else param_wire(a.vararg),
+            [param_wire(x, d) for x, d in zip(a.kwonlyargs, a.kw_defaults)],
+            N if a.kwarg is None else param_wire(a.kwarg)]
 
 
 def comp_wire(c):
@@ -69,11 +77,11 @@ def to_wire(n):
     """ast node (expression or statement) -> wire tree. Raw Python values (which genshi's
     transformer leaves inside Tuple nodes) are treated like ASTCodeGenerator.visit treats them."""
     if n is None:
-        return [Atom('Const'), Atom('None'), 'None']      # visit_Tuple writes 'None' for a raw None element
+        return [Atom('Const'), Atom('NONE'), 'None']      # visit_Tuple writes 'None' for a raw None element
     if isinstance(n, (bool, bytes, float, int, str)):
         return const_wire(n)
     if not isinstance(n, ast.AST):
-        return [Atom('Unsupported'), 'raw:' + type(n).__name__]
+        return [Atom('Unmodelled'), 'raw:' + type(n).__name__]
     t = type(n)
     if t is ast.Name:
         return [Atom('Name'), n.id]
@@ -168,7 +176,7 @@ def to_wire(n):
 # --------------------------------------------------------------------------
 # token streams
 
-_TK = {tokenize.NAME: 'name', tokenize.NUMBER: 'num', tokenize.STRING: 'str', tokenize.OP: 'op'}
+_TK = {tokenize.NAME: 'NAME', tokenize.NUMBER: 'NUM', tokenize.STRING: 'STR', tokenize.OP: 'OP'}
 
 
 def tokens_of(code):
